@@ -369,3 +369,26 @@ for _cls in ("JunctionCompartment", "ResidualJunctionCompartment"):
         modifies=[],
         ensures=[("C04+C10.empty_junction_stays_empty", "self.vals[0] == 0")],
         frame_props=["C04", "C10"], defined_props=["C04"])
+
+
+# ------------------------------------------------------------------------------------------------ limits (C06)
+_lim_ok = "implies(self.limits is not None, len(self.limits) == 2 and self.limits[0] <= self.limits[1])"
+CONTRACTS["model:Parameter.constrain#index"] = dict(
+    schema=schema, params={"ti": "int"},
+    requires=["0 <= ti", "ti < len(self.vals)", _lim_ok],
+    modifies=["self.vals[ti]"],
+    ensures=[
+        ("C06.clipped_into_limits", "implies(self.limits is not None, self.vals[ti] == min(max(old(self.vals[ti]), self.limits[0]), self.limits[1]))"),
+        ("C06.identity_without_limits", "implies(self.limits is None, self.vals[ti] == old(self.vals[ti]))"),
+    ],
+    frame_props=["C06"], defined_props=["C06"])
+CONTRACTS["model:Parameter.constrain#vector"] = dict(
+    schema=schema, params={"ti": "const:None"},
+    requires=[_lim_ok],
+    modifies=["self.vals"],
+    ensures=[
+        ("C06.all_values_clipped_into_limits", "implies(self.limits is not None, all(self.vals[i] == min(max(old(self.vals[i]), self.limits[0]), self.limits[1]) for i in range(len(self.vals))))"),
+        ("C06.length_preserved", "len(self.vals) == old(len(self.vals))"),
+        ("C06.identity_without_limits", "implies(self.limits is None, all(self.vals[i] == old(self.vals[i]) for i in range(len(self.vals))))"),
+    ],
+    frame_props=["C06"], defined_props=["C06"])
